@@ -18,8 +18,9 @@ MLF_DEFAULT = dbits(0.05)
 
 
 class Cfg:
-    def __init__(self, S, M, kind, hashmode, hpl=40, real=False):
+    def __init__(self, S, M, kind, hashmode, hpl=40, real=False, apol=None):
         self.S, self.M, self.kind, self.hashmode, self.hpl, self.real = S, M, kind, hashmode, hpl, real
+        self.apol = apol           # None: stateless always-equal allocator; 0..7: identity-carrying allocator, propagation bits
         self.simple = 1 if kind == 0 else 0
         self.nothrow = 1 if kind in (0, 1) else 0
 
@@ -27,10 +28,10 @@ class Cfg:
         return "m cfg %d %d %d %d %d %d %d" % (self.S, self.M, self.simple, self.nothrow, self.hpl, self.hashmode, bump)
 
     def key(self):
-        return "S%d-M%d-K%d" % (self.S, self.M, self.kind)
+        return "S%d-M%d-K%d" % (self.S, self.M, self.kind) + ("" if self.apol is None else "-A%d" % self.apol)
 
     def name(self):
-        return "S=%d M=%d kind=%d hash=%d" % (self.S, self.M, self.kind, self.hashmode)
+        return "S=%d M=%d kind=%d hash=%d" % (self.S, self.M, self.kind, self.hashmode) + ("" if self.apol is None else " apol=%d" % self.apol)
 
 
 def harness_for(cfg):
@@ -38,6 +39,8 @@ def harness_for(cfg):
              "-DVH_S=%d" % cfg.S, "-DVH_KIND=%d" % cfg.kind]
     if cfg.M != 65536:
         flags.append("-DLIBCUCKOO_VERIF_MAX_NUM_LOCKS=%d" % cfg.M)
+    if cfg.apol is not None:
+        flags.append("-DVH_APOL=%d" % cfg.apol)
     return C.build_harness("k2-" + cfg.key(), "k2_seq.cc", flags)
 
 
@@ -65,6 +68,8 @@ class Gen:
         self.locked = {0: False, 1: False}
         self.live = {0: False, 1: False}
         self.stat = {}
+        self.alloc = {}            # allocator id per existing object (allocator streams)
+        self.exists = set()
 
     def emit(self, s, kind=None):
         self.lines.append(s)
@@ -82,7 +87,11 @@ class Gen:
         cfg = self.cfg
         self.emit(cfg.line(), "cfg")
         n0 = init_n if init_n is not None else r.choice([0, 1, 2, 3, 4, 8, 9, 16, 33])
-        self.emit("m new 0 %d" % n0)
+        if cfg.apol is not None:
+            self.emit("m apol 0 %d" % cfg.apol)
+            self.new_obj(0, n0, r.choice([0, 1, 2]))
+        else:
+            self.emit("m new 0 %d" % n0)
         self.live[0] = True
         self.emit("m digest 0")
         prof = self.profile
@@ -115,6 +124,8 @@ class Gen:
                     self.emit("m find %d %d" % (tid, self.key(universe)))
             elif prof == "objects" and r.random() < 0.12:
                 self.objects_op(universe)
+            elif prof == "allocators" and r.random() < 0.15:
+                self.alloc_objects_op(universe)
             elif prof == "locked" and r.random() < 0.1:
                 self.emit("m lock %d" % tid)
                 self.locked[tid] = True
@@ -198,9 +209,14 @@ class Gen:
             self.emit("m move 6 5")                           # leave 5 and 6 in a defined state for the next round
             self.emit("m new 5 0")
             self.emit("m move 7 5")
-        else:
+        elif y < 0.95:
             self.emit("m move %d 0" % other)
             self.emit("m copy 0 %d" % other)
+        else:
+            self.emit("m copy 0 0")                           # self-assignment, self-swap: no effect
+            self.emit("m swap 0 0")
+            self.emit("m move %d %d" % (other, other))        # self-move: a moved-from object, assignable
+            self.emit("m copy %d 0" % other)
         for t in (0, other):
             self.emit("m digest %d" % t)
             self.emit("m inv %d" % t)
@@ -217,6 +233,102 @@ class Gen:
         for t in (0, other):
             self.emit("m digest %d" % t)
             self.emit("m inv %d" % t)
+
+    # ---- allocator streams (C11): objects 0, 3, 4 work; 5, 6, 7 are scratch ----
+    def new_obj(self, tid, n, a):
+        self.emit("m newa %d %d %d" % (tid, n, a))
+        self.live[tid] = True
+        self.exists.add(tid)
+        self.alloc[tid] = a
+
+    def do_assign(self, op, d, s):
+        """emit copy/move d <- s and track the allocators by the standard's rules"""
+        pol = self.cfg.apol
+        self.emit("m %s %d %d" % (op, d, s))
+        if d in self.exists:
+            prop = (pol & 1) if op == "copy" else (pol & 2)
+            if prop:
+                self.alloc[d] = self.alloc[s]
+        else:
+            self.exists.add(d)
+            self.alloc[d] = self.alloc[s]
+        if op == "move":
+            self.live[s] = False
+        self.live[d] = not (op == "move" and d == s)
+
+    def alloc_objects_op(self, universe):
+        r = self.rng
+        pol = self.cfg.apol
+        other = r.choice([3, 4])
+        if not self.live.get(other):
+            if other in self.exists and self.live.get(0) and r.random() < 0.5:
+                self.do_assign("copy", other, 0)               # assignment onto a moved-from object
+            else:
+                self.new_obj(other, r.choice([0, 2, 8, 40]), r.choice([0, 1, 2, 3]))
+            for _ in range(r.randrange(0, 10)):
+                self.emit("m insert %d %d %d" % (other, self.key(universe), r.randrange(1000)))
+        y = r.random()
+        touched = [0, other]
+        if y < 0.2:
+            self.do_assign("copy", other, 0)
+        elif y < 0.35:
+            self.do_assign("copy", 0, other)
+        elif y < 0.5:
+            if (pol & 4) or self.alloc[0] == self.alloc[other]:
+                self.emit("m swap 0 %d" % other)
+                if pol & 4:
+                    self.alloc[0], self.alloc[other] = self.alloc[other], self.alloc[0]
+            else:
+                self.do_assign("copy", 0, other)              # swap would be undefined behaviour: unequal, non-propagating
+        elif y < 0.62:
+            # allocator-extended copy construction (equal or different allocator), then assign back
+            a = r.choice([self.alloc[0], 0, 1, 2, 3, 9])
+            self.emit("m copya 5 0 %d" % a)
+            self.exists.add(5); self.live[5] = True; self.alloc[5] = a
+            self.emit("m digest 5"); self.emit("m inv 5"); self.emit("m allocid 5"); self.emit("m stats 5")
+            self.emit("m insert 5 %d %d" % (self.key(universe), r.randrange(1000)))
+            self.emit("m erase 5 %d" % self.key(universe))
+            self.emit("m digest 5"); self.emit("m inv 5")
+            self.do_assign("move" if r.random() < 0.5 else "copy", other, 5)
+        elif y < 0.76:
+            # allocator-extended move construction, then move-assign back into 0
+            a = r.choice([self.alloc[0], 0, 1, 2, 3, 9])
+            self.emit("m movea 6 0 %d" % a)
+            self.exists.add(6); self.live[6] = True; self.alloc[6] = a; self.live[0] = False
+            self.emit("m digest 6"); self.emit("m inv 6"); self.emit("m allocid 6"); self.emit("m stats 6")
+            self.emit("m insert 6 %d %d" % (self.key(universe), r.randrange(1000)))
+            self.emit("m digest 6"); self.emit("m inv 6")
+            self.do_assign("move", 0, 6)
+        elif y < 0.86:
+            self.do_assign("move", other, 0)
+            self.do_assign("copy", 0, other)
+        elif y < 0.93:
+            # self-assignment and self-swap leave the object as it was
+            self.do_assign("copy", 0, 0)
+            self.emit("m swap 0 0")
+        else:
+            # self-move leaves a valid moved-from object: it can be assigned to
+            self.do_assign("move", other, other)
+            self.do_assign("copy", other, 0)
+        for t in touched:
+            if self.live.get(t):
+                self.emit("m digest %d" % t)
+                self.emit("m inv %d" % t)
+                self.emit("m stats %d" % t)
+                self.emit("m allocid %d" % t)
+        for _ in range(r.randrange(2, 8)):
+            t = r.choice(touched)
+            z = r.random()
+            if z < 0.5:
+                self.emit("m insert %d %d %d" % (t, self.key(universe), r.randrange(1000)))
+            elif z < 0.75:
+                self.emit("m erase %d %d" % (t, self.key(universe)))
+            else:
+                self.emit("m find %d %d" % (t, self.key(universe)))
+        for t in touched:
+            self.emit("m digest %d" % t)
+            self.emit("m inv %d" % t)
+            self.emit("m allocid %d" % t)
 
     def locked_op(self, tid, universe):
         r = self.rng
@@ -334,6 +446,9 @@ class RefMap:
         self.mhp = {}
         self.wires = {}
         self.fails = []
+        self.pol = 0
+        self.alloc = {}
+        self.exists = set()
 
     def fail(self, prop, i, line, got, why):
         self.fails.append({"property": prop, "op_index": i, "op": line, "implementation_answer": got, "why": why})
@@ -356,29 +471,60 @@ class RefMap:
         if op == "cfg":
             return
         tid = int(w[1])
-        if op == "new":
+        if op == "apol":
+            self.pol = int(w[2])
+            return
+        if op in ("new", "newa"):
             self.maps[tid] = {}
             self.locked[tid] = False
             self.mlf[tid] = MLF_DEFAULT
             self.mhp[tid] = NOMAX
+            self.exists.add(tid)
+            self.alloc[tid] = int(w[3]) if op == "newa" else 0
             return
-        if op in ("copy", "move", "swap"):
+        if op in ("copy", "move", "swap", "copya", "movea"):
             src = int(w[2])
             if got != "ok":
                 if not got.startswith("bad-table"):
                     self.fail("C11", i, line, got, "copy/move/swap failed")
                 return
-            if op == "copy":
-                self.maps[tid] = dict(self.maps.get(src, {}))
-                self.mlf[tid], self.mhp[tid] = self.mlf.get(src), self.mhp.get(src)
-            elif op == "move":
+            if op == "swap":
+                if src != tid:
+                    self.maps[tid], self.maps[src] = self.maps.get(src, {}), self.maps.get(tid, {})
+                    self.mlf[tid], self.mlf[src] = self.mlf.get(src), self.mlf.get(tid)
+                    self.mhp[tid], self.mhp[src] = self.mhp.get(src), self.mhp.get(tid)
+                    if self.pol & 4:
+                        self.alloc[tid], self.alloc[src] = self.alloc.get(src, 0), self.alloc.get(tid, 0)
+                self.locked[tid] = False
+                return
+            # the allocator of the destination: the standard's container rules
+            if op in ("copya", "movea"):
+                self.alloc[tid] = int(w[3])
+            elif tid in self.exists:
+                if self.pol & (1 if op == "copy" else 2):
+                    self.alloc[tid] = self.alloc.get(src, 0)
+            else:
+                self.alloc[tid] = self.alloc.get(src, 0)
+            self.exists.add(tid)
+            if op in ("copy", "copya"):
+                if src != tid:
+                    self.maps[tid] = dict(self.maps.get(src, {}))
+                    self.mlf[tid], self.mhp[tid] = self.mlf.get(src), self.mhp.get(src)
+            elif src == tid:
+                self.maps.pop(tid, None)           # self-move: a moved-from object (valid to destroy or assign to)
+            else:
                 self.maps[tid] = self.maps.pop(src, {})
                 self.mlf[tid], self.mhp[tid] = self.mlf.get(src), self.mhp.get(src)
-            else:
-                self.maps[tid], self.maps[src] = self.maps.get(src, {}), self.maps.get(tid, {})
-                self.mlf[tid], self.mlf[src] = self.mlf.get(src), self.mlf.get(tid)
-                self.mhp[tid], self.mhp[src] = self.mhp.get(src), self.mhp.get(tid)
             self.locked[tid] = False
+            return
+        if op == "allocid":
+            if tid not in self.maps:
+                return
+            want = "ok a=%d own=%d mism=0" % (self.alloc.get(tid, 0), self.alloc.get(tid, 0))
+            if got != want:
+                self.fail("C11", i, line, got, "allocator bookkeeping: expected `%s` (a = the allocator the object must hold by the "
+                          "propagation rules, own = the instance its bucket array was obtained from, mism = blocks returned to a "
+                          "different instance)" % want)
             return
         m = self.maps.get(tid)
         if m is None:
